@@ -71,7 +71,7 @@ def run_observer(o, name, twin):
     except core.Timeout:
         raise
     except BaseException as e:  # noqa - observers may fail (size bound reached); purity is demanded either way
-        return ('raised', type(e).__name__)
+        return ('raised', core.ename(e))
 
 
 def same_observable_state(o, twin, eq_is_meaningful):
